@@ -18,7 +18,7 @@
 -/
 import KiraModel.Proofs.SpatialLemmas
 import KiraModel.Proofs.SystemLemmas
-import KiraModel.Props.C02
+import KiraModel.Props.C01_full
 
 set_option linter.unusedSectionVars false
 
@@ -284,6 +284,33 @@ theorem C15_system_level_product {n : Nat} (fuel ibs : Nat)
   · intro e he f lp lo t hs
     exact SpatialData.spatialize_product sd' e he f lp lo t hs
 
+/-- **Every scene, every history.**  In every reachable state of the whole-system model (`System.Reach`: any
+    sequence of manager / handle operations — `add_listener`, `add_spatial_sub_track`, listener and spatial-track
+    handle methods and drops included —, sample-rate changes and callbacks) the sub-tracks the mixer processes in
+    the next callback, and all their descendants, have clean scratch buffers: the hypothesis `Trk.Clean` of
+    `C15_system_no_listener_silent` and `C15_system_level_product` holds for every spatial track of every scene
+    (a descendant of a clean track is clean by definition of `Trk.Clean`).  Consequently, for every top-level
+    spatial track of a reachable scene whose listener's handle has been dropped (or was never added), the first
+    chunk of the next callback gets exact silence from it — whatever the scene and the history. -/
+theorem C15_system_reachable_dropped_listener_silent {n : Nat} (s : System ℝ n) (h : System.Reach s) :
+    Trk.CleanList s.r.ibs (s.r.onStart s.C s.V).mixer.subTracks
+      ∧ ∀ (d : TrkData ℝ (SysSnd ℝ) (SysFx ℝ n) (SysSpatial ℝ))
+          (children pending : List (Trk ℝ (SysSnd ℝ) (SysFx ℝ n) (SysSpatial ℝ))) (p : SysSpatial ℝ),
+          Trk.node d children pending ∈ (s.r.onStart s.C s.V).mixer.subTracks → d.spatial = some p →
+          (∀ l ∈ s.r.env.listeners, l.id = p.sd.listenerId → l.removed = true) →
+          (∀ l ∈ s.r.env.newListeners, l.id ≠ p.sd.listenerId) →
+          ∀ (m : Nat), m ≤ s.r.ibs → ∀ (sends : List (SendTrk ℝ (SysFx ℝ n))),
+            (Trk.process s.C s.r.dt
+                (s.V.info (s.V.step (s.r.onStart s.C s.V).env (s.r.dt * (KOps.ofNat m : ℝ))))
+                (.node d children pending) (zeros m) sends).2.1 = zeros m := by
+  have hok := C01_system_invariant s h
+  have hclean : Mixer.Clean s.r.ibs (s.r.onStart s.C s.V).mixer := Mixer.onStart_clean _ _ _ hok.1.2
+  refine ⟨hclean.subs, ?_⟩
+  intro d children pending p hmem hsp hact hpend m hm sends
+  have ht : Trk.Clean s.r.ibs (.node d children pending) := (Trk.cleanList_iff _ _).mp hclean.subs _ hmem
+  have habs := C15_system_dropped_listener_absent s.fuel s.r.env p.sd.listenerId hact hpend [s.r.dt * (KOps.ofNat m : ℝ)]
+  exact (C15_system_no_listener_silent s.fuel s.r.ibs d children pending p hsp ht s.r.dt _ habs m hm sends).1
+
 /-! ### non-vacuity -/
 
 /-- a spatial track as `SpatialTrackBuilder::new()` makes it (distances 1…100, linear attenuation, strength
@@ -300,5 +327,25 @@ example : ∃ (d : TrkData ℝ (SysSnd ℝ) (SysFx ℝ 0) (SysSpatial ℝ)) (p :
   · exact Trk.mapData_clean 4 _ (fun _ => rfl) _ (Trk.buildV_clean 0 (.fixed 0) [] [] false 4)
   · simp [t, Trk.mapData, Trk.data, Trk.buildV, Trk.advancing, Trk.preUpdate, Psm.new, Psm.update,
       PlaybackState.isAdvancing, Psm.playbackState]
+
+/-- a scene with a listener, a spatial track bound to it, and the listener's handle dropped again is a reachable
+    state of the whole-system model (so `C15_system_reachable_dropped_listener_silent` speaks about it) -/
+example : ∃ s : System ℝ 0, System.Reach s ∧ s.r.mixer.pendingSubTracks.length = 1
+    ∧ (∀ l ∈ s.r.env.newListeners, l.id = 7 ∧ l.removed = true) := by
+  let s0 : System ℝ 0 := System.new 16 4 48000 (.fixed 0) []
+  let s1 := s0.addListener 7 (.fixed Vec3.zero) (.fixed Quat.identity)
+  let s2 := s1.addSpatialSubTrack none 0 (SysSpatial.new 7 (.fixed Vec3.zero) 1 100 (some .linear) (.fixed (3 / 4)))
+    (.fixed 0) [] [] false
+  let s3 := s2.listenerCommand 7 (fun l => { l with removed := true })
+  have h0 : System.Reach s0 := .new 16 4 48000 (by norm_num) _ _
+  have h1 : System.Reach s1 := (System.reach_spatial_ops s0 h0).1 7 _ _
+  have h2 : System.Reach s2 := .addSpatialSubTrack s1 none 0 _ _ [] [] false h1
+  have h3 : System.Reach s3 := (System.reach_spatial_ops s2 h2).2.1 7 _
+  refine ⟨s3, h3, rfl, ?_⟩
+  intro l hl
+  simp [s3, s2, s1, s0, System.listenerCommand, System.addSpatialSubTrack, System.addListener, System.withEnv,
+    System.withMixer, System.new, SysEnv.empty] at hl
+  subst hl
+  exact ⟨rfl, rfl⟩
 
 end K
